@@ -38,6 +38,8 @@ var addrExec = map[string]h.ExecFn{
 	"addr.tlb":       exAddrTlb,
 	"addr.from_tlb":  exAddrFromTlb,
 	"addr.anycast":   exAddrAnycast,
+	"addr.tlb_parse": exAddrTlbParse,
+	"addr.tlb_bits":  exAddrTlbBits,
 	"addr.subst":     exAddrSubst,
 	"adnl.to32":      exAdnlTo32,
 	"adnl.parse":     exAdnlParse,
@@ -52,6 +54,8 @@ var addrExec = map[string]h.ExecFn{
 		}
 		return "ok " + h.Hex(b)
 	},
+	"addr.root_parse":   exRootParse,
+	"go.addr.flags":     goAddrFlags,
 	"go.addr.roundtrip": goAddrRoundtrip,
 	"go.addr.subst":     goAddrSubst,
 	"go.addr.anycast":   goAddrAnycast,
@@ -172,6 +176,67 @@ func exAddrFromTlb(a []string) string {
 	return outAcctPtr(ton.AccountIDFromTlb(m))
 }
 
+func bitStringBits(b *boc.BitString) string {
+	b.ResetCounter()
+	var sb strings.Builder
+	for b.BitsAvailableForRead() > 0 {
+		x, err := b.ReadBit()
+		if err != nil {
+			panic(err)
+		}
+		if x {
+			sb.WriteByte('1')
+		} else {
+			sb.WriteByte('0')
+		}
+	}
+	if sb.Len() == 0 {
+		return "-"
+	}
+	return sb.String()
+}
+
+func anycastStr(m tlb.Maybe[tlb.Anycast]) string {
+	if !m.Exists {
+		return "-"
+	}
+	return fmt.Sprintf("%d/%d", m.Value.Depth, m.Value.RewritePfx)
+}
+
+// exAddrTlbParse: MsgAddress.UnmarshalTLB on the given cell bits, all four constructors, canonical text
+func exAddrTlbParse(a []string) string {
+	c := cellFromBits(a[0])
+	var m tlb.MsgAddress
+	if err := tlb.Unmarshal(c, &m); err != nil {
+		return "err"
+	}
+	switch m.SumType {
+	case "AddrNone":
+		return "ok none"
+	case "AddrExtern":
+		return "ok extern " + bitStringBits(m.AddrExtern)
+	case "AddrStd":
+		return fmt.Sprintf("ok std %s %d %s", anycastStr(m.AddrStd.Anycast), m.AddrStd.WorkchainId, hex.EncodeToString(m.AddrStd.Address[:]))
+	case "AddrVar":
+		return fmt.Sprintf("ok var %s %d %d %s", anycastStr(m.AddrVar.Anycast), m.AddrVar.AddrLen, m.AddrVar.WorkchainId, bitStringBits(&m.AddrVar.Address))
+	}
+	return "FAIL sumtype " + string(m.SumType)
+}
+
+// exAddrTlbBits: unmarshal, marshal again: the bits MsgAddress.MarshalTLB writes for the parsed value
+func exAddrTlbBits(a []string) string {
+	c := cellFromBits(a[0])
+	var m tlb.MsgAddress
+	if err := tlb.Unmarshal(c, &m); err != nil {
+		return "err"
+	}
+	out := boc.NewCell()
+	if err := tlb.Marshal(out, m); err != nil {
+		return "err"
+	}
+	return "ok " + cellBits(out)
+}
+
 func anycastAddr(w, a, d, p string) tlb.MsgAddress {
 	id := acctArg(w, a)
 	m := id.ToMsgAddress()
@@ -246,6 +311,83 @@ func goAddrSubst(a []string) string {
 	})
 	if bad != "" {
 		return "FAIL corrupted-accepted " + bad + " (from " + s + ")"
+	}
+	return "ok"
+}
+
+// exRootParse: the root package parser tongo.ParseAddress (account.go) on strings that cannot reach the DNS resolver
+// (no "." in them): `ok wc addr bounce` | `err`; MustParseAddress must agree (panic exactly on error).
+func exRootParse(a []string) string {
+	s := strArg(a[0])
+	if strings.Contains(s, ".") {
+		return "bad-op"
+	}
+	ad, err := tongo.ParseAddress(s)
+	var mustPanicked bool
+	var ad2 ton.Address
+	func() {
+		defer func() {
+			if recover() != nil {
+				mustPanicked = true
+			}
+		}()
+		ad2 = tongo.MustParseAddress(s)
+	}()
+	if mustPanicked != (err != nil) {
+		return "FAIL must-parse-disagrees"
+	}
+	if err != nil {
+		return "err"
+	}
+	if ad2.ID != ad.ID || ad2.Bounce != ad.Bounce || ad.StateInit != nil {
+		return "FAIL must-parse-disagrees"
+	}
+	b := 0
+	if ad.Bounce {
+		b = 1
+	}
+	return fmt.Sprintf("ok %d %s %d", ad.ID.Workchain, hex.EncodeToString(ad.ID.Address[:]), b)
+}
+
+// goAddrFlags: the flags are part of what the friendly form means: through the root-package API the bounce flag
+// survives print -> parse for every flag combination and both alphabets (the testnet flag has no field in ton.Address);
+// the raw form parses as bounceable; the re-exported names are the ton functions.
+func goAddrFlags(a []string) string {
+	id := acctArg(a[0], a[1])
+	if id.Workchain < -128 || id.Workchain > 127 {
+		return "ok"
+	}
+	for _, bounce := range []bool{false, true} {
+		for _, testnet := range []bool{false, true} {
+			s := id.ToHuman(bounce, testnet)
+			for _, str := range []string{s, toStdAlphabet(s)} {
+				ad, err := tongo.ParseAddress(str)
+				if err != nil || ad.ID != id {
+					return "FAIL root-parse-id " + str
+				}
+				if ad.Bounce != bounce {
+					return fmt.Sprintf("FAIL bounce-flag-lost %s printed-bounce=%v parsed-bounce=%v testnet=%v", str, bounce, ad.Bounce, testnet)
+				}
+				m := tongo.MustParseAddress(str)
+				if m.ID != id || m.Bounce != bounce {
+					return "FAIL must-parse " + str
+				}
+				if x, err := tongo.ParseAccountID(str); err != nil || x != id || tongo.MustParseAccountID(str) != id {
+					return "FAIL reexport-parse " + str
+				}
+			}
+		}
+	}
+	ad, err := tongo.ParseAddress(id.ToRaw())
+	if err != nil || ad.ID != id || !ad.Bounce {
+		return "FAIL root-parse-raw " + id.ToRaw()
+	}
+	if n := tongo.NewAccountId(id.Workchain, id.Address); n == nil || *n != id {
+		return "FAIL reexport-new"
+	}
+	m := id.ToMsgAddress()
+	if x, err := tongo.AccountIDFromTlb(m); err != nil || x == nil || *x != id {
+		return "FAIL reexport-fromtlb"
 	}
 	return "ok"
 }
@@ -515,6 +657,12 @@ func genAcct(g *h.G, friendly bool) (int32, [32]byte) {
 
 func hs(s string) string { return h.Hex([]byte(s)) }
 
+func emitRootParse(g *h.G, s string) {
+	if !strings.Contains(s, ".") {
+		g.Emit("addr.root_parse", hs(s))
+	}
+}
+
 func mutateString(g *h.G, s string) string {
 	b := []byte(s)
 	switch g.Rng.Intn(12) {
@@ -620,6 +768,7 @@ func genC17Addr(g *h.G) {
 		g.Emit("addr.from_raw", hs(s))
 		g.Emit("addr.from_b64", hs(s))
 		g.Emit("addr.parse", hs(s))
+		emitRootParse(g, s)
 		g.Emit("addr.from_json", hs(`"`+s+`"`))
 		g.Count("malformed_fixed")
 	}
@@ -628,7 +777,7 @@ func genC17Addr(g *h.G) {
 	}
 
 	// all 48 x 63 single-character substitutions (interleaved with the other cases: they are the expensive lines)
-	ns := g.Scale(200, 2000)
+	ns := g.Scale(300, 4000)
 	substDone := 0
 	emitSubst := func() {
 		if substDone >= ns {
@@ -664,6 +813,7 @@ func genC17Addr(g *h.G) {
 		}
 		g.NonTrivial("acct/" + ws + "/" + as)
 		g.Emit("go.addr.roundtrip", ws, as)
+		g.Emit("go.addr.flags", ws, as)
 		g.Emit("addr.raw", ws, as)
 		g.Emit("addr.json", ws, as)
 		g.Emit("addr.tl", ws, as)
@@ -671,6 +821,7 @@ func genC17Addr(g *h.G) {
 		raw := id.ToRaw()
 		g.Emit("addr.from_raw", hs(raw))
 		g.Emit("addr.parse", hs(raw))
+		emitRootParse(g, raw)
 		g.Emit("addr.from_json", hs(`"`+raw+`"`))
 		tl, _ := id.MarshalTL()
 		g.Emit("addr.from_tl", h.Hex(append(tl, g.Bytes(g.Rng.Intn(3))...)))
@@ -697,6 +848,11 @@ func genC17Addr(g *h.G) {
 		}
 		g.Emit("addr.from_b64", hs(hstr))
 		g.Emit("addr.parse", hs(hstr))
+		emitRootParse(g, hstr)
+		if g.Rng.Intn(4) == 0 { // the root parser ignores the base64 error: trailing garbage after 48 valid characters
+			emitRootParse(g, hstr+[]string{"!", "A", "AA", "AAA", "=", "==", "\n", " ", "AAAA", "A===", "AA==x"}[g.Rng.Intn(11)])
+			g.Count("root_trailing_garbage")
+		}
 		g.Emit("addr.from_json", hs(`"`+hstr+`"`))
 		// TL-B bits: plain, with anycast, truncated
 		c := boc.NewCell()
@@ -720,9 +876,56 @@ func genC17Addr(g *h.G) {
 				}
 				g.Count("tlb_truncated")
 			}
-			if !strings.HasPrefix(bits, "01") && !strings.HasPrefix(bits, "11") {
-				g.Emit("addr.from_tlb", bits)
+			g.Emit("addr.from_tlb", bits)
+			g.Emit("addr.tlb_parse", bits)
+			g.Emit("addr.tlb_bits", bits)
+		}
+		if g.Rng.Intn(3) == 0 { // addr_extern / addr_var / arbitrary tag bits
+			var bits string
+			rb := func(n int) string {
+				var sb strings.Builder
+				for k := 0; k < n; k++ {
+					sb.WriteByte("01"[g.Rng.Intn(2)])
+				}
+				return sb.String()
 			}
+			ac := "0"
+			if g.Rng.Intn(3) == 0 {
+				d := 1 + g.Rng.Intn(31)
+				if g.Rng.Intn(6) == 0 {
+					d = 0
+				}
+				ac = "1" + fmt.Sprintf("%05b", d) + rb(d)
+			}
+			ln := g.Rng.Intn(512)
+			if g.Rng.Intn(3) == 0 {
+				ln = g.Pick(0, 1, 7, 8, 255, 256, 511)
+			}
+			switch g.Rng.Intn(3) {
+			case 0:
+				bits = "01" + fmt.Sprintf("%09b", ln) + rb(ln)
+				g.Count("tlb_extern")
+			case 1:
+				bits = "11" + ac + fmt.Sprintf("%09b", ln) + rb(32) + rb(ln)
+				g.Count("tlb_var")
+			default:
+				bits = rb(g.Rng.Intn(400))
+				g.Count("tlb_random_bits")
+			}
+			if g.Rng.Intn(5) == 0 {
+				bits = bits[:g.Rng.Intn(len(bits)+1)]
+			} else if len(bits) < 1000 && g.Rng.Intn(3) == 0 {
+				bits += rb(g.Rng.Intn(20))
+			}
+			if len(bits) > 1023 {
+				bits = bits[:1023]
+			}
+			if bits == "" {
+				bits = "-"
+			}
+			g.Emit("addr.from_tlb", bits)
+			g.Emit("addr.tlb_parse", bits)
+			g.Emit("addr.tlb_bits", bits)
 		}
 		if g.Rng.Intn(4) == 0 {
 			d, p := uint32(1+g.Rng.Intn(30)), g.Rng.Uint32()
@@ -746,6 +949,7 @@ func genC17Addr(g *h.G) {
 			g.Emit("addr.from_raw", hs(ms))
 			g.Emit("addr.from_b64", hs(ms))
 			g.Emit("addr.parse", hs(ms))
+			emitRootParse(g, ms)
 			g.Count("malformed_mutated")
 		}
 	}
